@@ -4,6 +4,8 @@ Spec: {"cycles": [CYCLE, ...], "idle_stops": [n, ...]}          idle_stops[k] = 
   CYCLE = {"sco": k (0 = plain `stopped` handler; k>0: it is a coroutine that call()s an event and then fires k-1 more), "tree": NODE, "stop": {"at": node index (0 = the `started` handler), "where": "handler"|"genstep"|"thread",
                                   "kind": "stop"|"stopcode"|"sysexit"|"kbd", "code": null|0|3|"msg", "after": bool}}
   NODE  = {"kids": [NODE, ...], "prio": p}
+"again": 0 none; 1/4 the `stopped` handler calls stop(7)/stop(); 2 it raises SystemExit(7) (plain handler only); 3 the first node handler of the
+drained tail calls stop(7) - the manager is not running any more, so none of them may change anything (exit code of the first stop stands).
 Every node is an event whose handler fires its kids; node 0 is fired by nobody: its handler IS the `started` handler.
 "after": the stop action runs after the kids were fired (always so for the raising kinds, whose handler ends there).
 """
@@ -104,7 +106,8 @@ class C08(Prop):
         })
         cyc = st.fixed_dictionaries({'tree': _tree(2 if tier == 'quick' else 3), 'stop': stop,
                                      'chain': st.sampled_from([0, 0, 0, 2, 5, 9]),
-                                     'sco': st.sampled_from([0, 0, 0, 1, 2, 4])})
+                                     'sco': st.sampled_from([0, 0, 0, 1, 2, 4]),
+                                     'again': st.sampled_from([0, 0, 0, 1, 2, 3, 4])})
         return st.fixed_dictionaries({
             'cycles': st.lists(cyc, min_size=1, max_size=3),
             'idle_stops': st.lists(st.integers(0, 2), min_size=3, max_size=3),
@@ -130,6 +133,13 @@ class C08(Prop):
             def _stopped(self, event, *a):
                 log.append(('disp', 'stopped'))
                 k = cur.get('sco', 0)
+                again = cur.get('again', 0)
+                if again == 1:
+                    self.stop(7)          # the manager has stopped already: no effect, the first exit code stands
+                elif again == 4:
+                    self.stop()
+                elif again == 2 and not k:
+                    raise SystemExit(7)
                 if k:
                     # the `stopped` handler is a coroutine: it call()s one event and then fires a chain of k-1 more
                     return stopped_co(self, k)
@@ -186,6 +196,10 @@ class C08(Prop):
         def run_node(comp, event, n):
             stop = cur['stop']
             here = stop['at'] == n['id']
+            if cur.get('again') == 3 and not here and not cur.get('again_done') and any(l[0] == 'stop-action' for l in log):
+                # part of the drained tail: a second stop(code) while the manager is no longer running
+                cur['again_done'] = True
+                comp.stop(7)
             if here and stop['where'] == 'genstep':
                 def g():
                     yield None
@@ -295,6 +309,8 @@ class C08(Prop):
                 classes.add('re-run')
             if cyc.get('sco'):
                 classes.add('stopped-handler-is-a-coroutine')
+            if cyc.get('again') in (1, 2, 4) or cur.get('again_done'):
+                classes.add('second-stop-after-stopping:%d' % cyc['again'])
         return Result(True, nontrivial=nontrivial, classes=sorted(classes))
 
 
